@@ -104,6 +104,14 @@ def generate(rng, tier, mode="default"):
             fill = ["h0 add 16", "h0 add 32", "h1 = h0 copy_shallow", "h1 add 48", "h1 add 64"]      # h0 2/4, h1 4/4
             zipl = "z0 = h1 h0 zip" if full_first else "z0 = h0 h1 zip"
             out.append([hdr(4, "2/1", "conf", plan)] + fill + [zipl, "z0 next", "z0 add 70 71", "z0 next", "z0 add 72 73", "h0 size", "h1 size", "END"])
+    # (e3) single-iterator add on an exactly full array under every single refusal: a refused growth must leave the
+    #      contents AND the cursor where they were (index, a retried add, the next yield all tell)
+    for cap in (2, 3, 4):
+        fill = ["h0 add %d" % (16 * (k + 1)) for k in range(cap)]
+        for nx in range(1, cap + 1):
+            for k in range(2, 6):
+                plan = "1" * k + "0"
+                out.append([hdr(cap, "2/1", "conf", plan)] + fill + ["i0 = h0 iter"] + ["i0 next"] * nx + ["i0 add 70", "i0 index", "i0 add 71", "i0 index", "i0 next", "i0 replace 5", "h0 size", "END"])
     # (f) stack: LIFO interleavings (exhaustive words) and long random ones, iteration, map, filter
     for cap in (1, 2, 3):
         for w in itertools.product("pq", repeat=(7 if quick else 10)):
@@ -112,6 +120,10 @@ def generate(rng, tier, mode="default"):
                 if ch == "p": v += 1; ops.append("s0 push %d" % (v * 2 + (v % 3 == 0)))
                 else: ops.append("s0 pop")
             out.append([hdr(cap, "2/1", "conf", "", "stack")] + ops + ["s0 peek", "s0 size", "s0 map", "i0 = s0 iter", "i0 next", "i0 replace 9", "i0 next", "s1 = s0 filter", "s0 filter_mut", "s0 destroy_cb", "END"])
+    for n in (1, 2, 3):
+        ps = ["s0 push %d" % (10 + k) for k in range(n)]
+        out.append([hdr(4, "2/1", "conf", "", "stack")] + ps + ["i0 = s0 iter"] + ["i0 next"] * n + ["i0 replace 77", "s0 peek", "s0 pop", "s0 peek", "s0 size", "END"])
+        out.append([hdr(4, "2/1", "conf", "", "stack")] + ps + ["s1 = s0 filter", "z0 = s0 s1 zip"] + ["z0 next"] * n + ["z0 replace 77 78", "s0 peek", "s1 peek", "s0 pop", "s1 pop", "s0 peek", "END"])
     out.append(["T ? array default kind=stack", "s0 pop", "s0 peek", "s0 push 1", "s1 = s0 filter", "s0 push 2", "s1 = s0 filter", "z0 = s0 s1 zip", "z0 next", "z0 replace 5 6", "z0 next", "END"])
     out.append(["T ? array default", "h0 add 1", "h0 remove_last", "h0 remove_last", "h0 get_last", "h0 filter_mut", "h1 = h0 filter", "h0 trim", "h0 add 4", "h0 add 5", "END"])
     # (h) capacities and factors whose buffer size in bytes is at or beyond what size_t can hold (the constructor
